@@ -67,6 +67,19 @@ class FrameModel:
                 return self.red(Q(v.t) if v.tag == 'squared' else S(v.t))
             if name == 'count':
                 return self.red(C(v.t))
+            if name == 'dropna' and not args and not kwargs:
+                # rows without any missing value (assumed pandas contract).  Series: the reductions that skip NaN are
+                # unchanged and every remaining row counts.  DataFrame: a row is dropped when ANY column is missing, so for
+                # the one modelled column only  "what remains has no NaN and is not longer than the frame"  is known.
+                D = z3.Const(sym.fresh_name('dropna'), SeqRowS)
+                I.st.assume(z3.Length(D) <= z3.Length(v.t))
+                I.st.assume(C(D) == z3.ToReal(z3.Length(D)))
+                I.st.assume(N(D) == z3.ToReal(z3.Length(D)))
+                if not self.vector:
+                    I.st.assume(S(D) == S(v.t))
+                    I.st.assume(Q(D) == Q(v.t))
+                    I.st.assume(C(D) == C(v.t))
+                return VFrame(D)
             raise Unsupported('frame method %s' % name)
 
         def frame_binop(I, op, a, b):
